@@ -1424,18 +1424,21 @@ def run(rep: vlib.Reporter, tier: str, seed: int) -> None:
         extra_defs=EXTRA, case_type="(nat * str * list (str * pv) * list (str * pv)) * (res (list pv) * res (list pv))")
     rep.count(len(keepp))
     pd_: Dict[str, int] = {}
+    judge_fail = 0
     for c, pl, ca in keepp:
         kk = f"{'chained' if c['chained'] else ('plain' if c['chained'] is False else 'mixed')}:in_features={c['which']}:plan={pl[0]}:calc={ca[0]}"
         pd_[kk] = pd_.get(kk, 0) + 1
         if pl[0] == "ok" and ca[0] == "ok" and c["which"] not in ("none",):
             rep.nontrivial(("pair", c["gi"], c["name"], json.dumps([c["group"], c["context"]])))
         if not py_pair_ok(pl, ca):
+            judge_fail += 1
+        if not py_pair_ok(pl, ca) and judge_fail <= 3:
             finding(f"pair-judge:{c['gi']}:{c['name']!r}:{json.dumps([c['group'], c['context']])}",
                     f"group {GROUP_SPECS[c['gi']]['suf']}, feature {c['name']!r} with options group={c['group']} context={c['context']}: "
                     f"input_features (planning) = {pl} but _extract_source_features (calculation) = {ca}: the calculation does not "
                     "read what was planned", {"kind": "pair", **c, "obs": [pl, ca]})
-    rep.add("pair", {**info, "cases": len(keepp), "distribution": pd_, "disagreements": len(bad)})
-    for i in bad[:5]:
+    rep.add("pair", {**info, "cases": len(keepp), "distribution": pd_, "disagreements": len(bad), "judge_failures": judge_fail})
+    for i in bad[:3]:
         c, pl, ca = keepp[i]
         finding(f"pair:{c['gi']}:{c['name']!r}:{json.dumps([c['group'], c['context']])}",
                 f"group {GROUP_SPECS[c['gi']]['suf']}, feature {c['name']!r} with options group={c['group']} context={c['context']}: "
@@ -1448,6 +1451,17 @@ def run(rep: vlib.Reporter, tier: str, seed: int) -> None:
     sst2: Dict[str, Any] = {"chains": 0, "runs": 0, "all_notations_equal": 0, "read_column_identified_by_value": 0, "by_depth": {},
                             "by_notation": {}, "by_fw": {}}
     src_terms, src_meta = [], []
+    src_reported = [0]
+
+    def src_finding(key: str, what: str, replay: Any) -> None:
+        nonlocal found
+        sst2["failures"] = sst2.get("failures", 0) + 1
+        src_reported[0] += 1
+        if src_reported[0] <= 6:
+            finding(key, what, replay)
+        else:
+            found = True
+
     for c in scs:
         sst2["chains"] += 1
         sst2["by_depth"][str(c["k"])] = sst2["by_depth"].get(str(c["k"]), 0) + 1
@@ -1468,14 +1482,14 @@ def run(rep: vlib.Reporter, tier: str, seed: int) -> None:
             if v[0] == "name":
                 if vals is None or orc is None or not same_values(vals, orc):
                     equal = False
-                    finding(f"src-name:{c['name']}:{c['fw']}", f"chained name {c['name']} on {c['fw']} gives {vals if vals is not None else r.get('msg')}; "
+                    src_finding(f"src-name:{c['name']}:{c['fw']}", f"chained name {c['name']} on {c['fw']} gives {vals if vals is not None else r.get('msg')}; "
                             f"left-to-right reference {None if orc is None else [None if x is None else float(x) for x in orc]}", replay)
                     break
                 ref = vals
             if vals is None or ref is None or not same_values(vals, ref):
                 equal = False
                 match = [col for col, cv in cand.items() if vals is not None and cv is not None and same_values(vals, cv)]
-                finding(f"src-notation:{v[0]}:{c['name']}:{c['fw']}",
+                src_finding(f"src-notation:{v[0]}:{c['name']}:{c['fw']}",
                         f"{v[0]}: {json.dumps(v[2])} on {c['fw']} gives {vals if vals is not None else (r.get('exc'), r.get('msg'))} but the "
                         f"plain chained name {c['name']} gives {ref}; the value is the one of the last operation over column(s) {match}, "
                         f"the planner resolved {r.get('planned')} as input of the last link (predecessor in the name: {c['pred']})", replay)
@@ -1485,7 +1499,7 @@ def run(rep: vlib.Reporter, tier: str, seed: int) -> None:
             planned = r["planned"]
             if planned != [c["pred"]] or c["pred"] not in r["last_cols"]:
                 equal = False
-                finding(f"src-planned:{v[0]}:{c['name']}:{c['fw']}", f"{v[0]}: {json.dumps(v[2])}: the feature computed before the last link is "
+                src_finding(f"src-planned:{v[0]}:{c['name']}:{c['fw']}", f"{v[0]}: {json.dumps(v[2])}: the feature computed before the last link is "
                         f"{planned}, columns handed to the last link {r['last_cols']}; the predecessor is {c['pred']}", replay)
                 continue
             read = c["pred"] if c["pred"] in consistent else (consistent[0] if consistent else "?")
